@@ -1,5 +1,6 @@
 //@include prelude/header.rs
 use rustpython_parser::ast::{Expr, Stmt, Keyword, Identifier, Constant};
+use rustpython_parser::text_size::TextRange;
 verus! {
 pub mod pre {
 use super::*;
@@ -12,6 +13,8 @@ use super::*;
 //@include prelude/iter_slice.rs
 } // mod pre
 use pre::*;
+
+broadcast use axiom_string_to_string;
 
 // ---- the documented decorator forms (README "Supported Fixture Patterns"), as functions of the AST ----
 /// `fixture` | `pytest.fixture` | `pytest_asyncio.fixture` | any of these CALLED (any number of times)
@@ -61,8 +64,131 @@ pub open spec fn spec_autouse(e: &Expr) -> bool {
     }
 }
 
+/// the text of a string literal, None for anything else (non-constant values are ignored)
+pub open spec fn str_const(e: Expr) -> Option<Seq<char>> {
+    match e { Expr::Constant(c) => (match c.value { Constant::Str(s) => Some(s@), _ => None }), _ => None }
+}
+pub open spec fn kw_str_fn(name: Seq<char>) -> spec_fn(Keyword) -> Option<Seq<char>> {
+    |kw: Keyword| if kw_is(kw, name) { str_const(kw.value) } else { None }
+}
+/// `FixtureScope::parse` (src/fixtures/types.rs: `to_lowercase()` + literal match) as a function of the text
+pub uninterp spec fn scope_parse(s: Seq<char>) -> Option<FixtureScope>;
+pub assume_specification[ FixtureScope::parse ](s: &str) -> (r: Option<FixtureScope>)
+    ensures r == scope_parse(s@);
+pub open spec fn scope_of_value(e: Expr) -> Option<FixtureScope> {
+    match str_const(e) { Some(s) => scope_parse(s), None => None }
+}
+pub open spec fn kw_scope_fn() -> spec_fn(Keyword) -> Option<FixtureScope> {
+    |kw: Keyword| if kw_is(kw, "scope"@) { scope_of_value(kw.value) } else { None }
+}
+/// what the keyword extractors establish about their result (object level; lifted by lemma_kw_post)
+pub open spec fn kw_post<V>(e: &Expr, g: spec_fn(Keyword) -> Option<V>, r: Option<V>) -> bool {
+    match e {
+        Expr::Call(c) => if spec_is_fixture_decorator(&*c.func) { find_map_post(c.keywords@.as_ref(), g, r) } else { r is None },
+        _ => r is None,
+    }
+}
+/// `name=`: the FIRST keyword called `name` whose value is a string literal
+pub open spec fn spec_kw<V>(e: &Expr, g: spec_fn(Keyword) -> Option<V>) -> Option<V> {
+    match e {
+        Expr::Call(c) => if spec_is_fixture_decorator(&*c.func) { first_some(c.keywords@, g, 0) } else { None },
+        _ => None,
+    }
+}
+pub proof fn lemma_kw_post<V>(e: &Expr, g: spec_fn(Keyword) -> Option<V>, r: Option<V>)
+    requires kw_post(e, g, r),
+    ensures r == spec_kw(e, g),
+{
+    match e {
+        Expr::Call(c) => { if spec_is_fixture_decorator(&*c.func) { lemma_find_map_post(c.keywords@, g, r); } }
+        _ => {}
+    }
+}
+
+pub open spec fn autouse_kw_fn() -> spec_fn(Keyword) -> bool { |kw: Keyword| kw_is(kw, "autouse"@) && is_true_const(kw.value) }
+pub open spec fn autouse_post(e: &Expr, r: bool) -> bool {
+    match e {
+        Expr::Call(c) => if spec_is_fixture_decorator(&*c.func) { any_post(c.keywords@.as_ref(), autouse_kw_fn(), r) } else { !r },
+        _ => !r,
+    }
+}
+pub proof fn lemma_autouse_post(e: &Expr, r: bool)
+    requires autouse_post(e, r),
+    ensures r == spec_autouse(e),
+{
+    match e {
+        Expr::Call(c) => { if spec_is_fixture_decorator(&*c.func) { lemma_any_post(c.keywords@, autouse_kw_fn(), r); } }
+        _ => {}
+    }
+}
+
+/// a string literal with its source range, None for anything else
+pub open spec fn str_const_r(e: Expr) -> Option<(Seq<char>, TextRange)> {
+    match e { Expr::Constant(c) => (match c.value { Constant::Str(s) => Some((s@, c.range)), _ => None }), _ => None }
+}
+pub open spec fn str_const_r_fn() -> spec_fn(Expr) -> Option<(Seq<char>, TextRange)> { |e: Expr| str_const_r(e) }
+pub open spec fn pair_view_fn() -> spec_fn((String, TextRange)) -> (Seq<char>, TextRange) { |p: (String, TextRange)| (p.0@, p.1) }
+pub open spec fn pairs_v(r: Seq<(String, TextRange)>) -> Seq<(Seq<char>, TextRange)> { r.map_values(pair_view_fn()) }
+/// usefixtures: the decorator is a CALL of `pytest.mark.usefixtures` / `mark.usefixtures` (possibly itself called);
+/// the names are its positional arguments that are string literals, in order, each with the literal's range
+pub open spec fn spec_usefixtures(e: &Expr) -> Seq<(Seq<char>, TextRange)> {
+    match e {
+        Expr::Call(c) => if spec_is_mark(&*c.func, "usefixtures"@) { filter_map_spec(c.args@, str_const_r_fn()) } else { Seq::empty() },
+        _ => Seq::empty(),
+    }
+}
+pub open spec fn usefix_post(e: &Expr, r: Seq<(String, TextRange)>) -> bool {
+    match e {
+        Expr::Call(c) => if spec_is_mark(&*c.func, "usefixtures"@) { filter_map_post(c.args@.as_ref(), str_const_r_fn(), pair_view_fn(), r) } else { r.len() == 0 },
+        _ => r.len() == 0,
+    }
+}
+pub proof fn lemma_usefix_post(e: &Expr, r: Seq<(String, TextRange)>)
+    requires usefix_post(e, r),
+    ensures pairs_v(r) =~= spec_usefixtures(e),
+{
+    match e {
+        Expr::Call(c) => { if spec_is_mark(&*c.func, "usefixtures"@) { lemma_filter_map_post(c.args@, str_const_r_fn(), pair_view_fn(), r); } }
+        _ => {}
+    }
+}
+
+/// pytestmark values: a usefixtures call, or a list / tuple whose elements are such values (any nesting)
+pub open spec fn spec_usefixtures_from_expr(e: &Expr) -> Seq<(Seq<char>, TextRange)>
+    decreases e, 0int
+{
+    match e {
+        Expr::Call(_) => spec_usefixtures(e),
+        Expr::List(l) => ufe_from(l.elts@, 0),
+        Expr::Tuple(t) => ufe_from(t.elts@, 0),
+        _ => Seq::empty(),
+    }
+}
+pub open spec fn ufe_from(es: Seq<Expr>, k: int) -> Seq<(Seq<char>, TextRange)>
+    decreases es, es.len() - k
+{
+    if k < 0 || k >= es.len() { Seq::empty() } else { spec_usefixtures_from_expr(&es[k]) + ufe_from(es, k + 1) }
+}
+pub open spec fn ufe_post(e: &Expr, r: Seq<(String, TextRange)>) -> bool
+    decreases e, 0int
+{
+    match e {
+        Expr::Call(_) => usefix_post(e, r),
+        Expr::List(l) => ufe_list_post(l.elts@, r),
+        Expr::Tuple(t) => ufe_list_post(t.elts@, r),
+        _ => r.len() == 0,
+    }
+}
+pub open spec fn ufe_list_post(es: Seq<Expr>, r: Seq<(String, TextRange)>) -> bool
+    decreases es, 1int
+{
+    exists|o: Seq<Vec<(String, TextRange)>>| #![trigger flat(o)] o.len() == es.len()
+        && (forall|j: int| 0 <= j < o.len() ==> ufe_post(&es[j], (#[trigger] o[j])@)) && r == flat(o)
+}
+
 pub mod decorators {
 use super::*;
+broadcast use axiom_string_to_string;
 /*@ extract src/fixtures/decorators.rs is_fixture_decorator
 @tags C03 C12
 @ret r
@@ -96,11 +222,55 @@ use super::*;
 /*@ extract src/fixtures/decorators.rs extract_fixture_autouse
 @tags C03
 @ret r
+@rename filter vp_filter
+@rename any vp_any
 @closure 1 |kw: &&Keyword| -> (b: bool) ensures b == kw_is(**kw, "autouse"@)
 @closure 2 |a: &Identifier| -> (b: bool) ensures b == (idv(a) == "autouse"@)
 @closure 3 |kw: &Keyword| -> (b: bool) ensures b == is_true_const(kw.value)
 @sig
-    ensures r == spec_autouse(expr),
+    ensures autouse_post(expr, r),
+@*/
+
+/*@ extract src/fixtures/decorators.rs extract_fixture_name_from_decorator
+@tags C03
+@ret r
+@rename filter vp_filter
+@rename find_map vp_find_map
+@closure 1 |kw: &&Keyword| -> (b: bool) ensures b == kw_is(**kw, "name"@)
+@closure 2 |a: &Identifier| -> (b: bool) ensures b == (idv(a) == "name"@)
+@closure 3 |kw: &Keyword| -> (o: Option<String>) ensures opt_sv(o) == str_const(kw.value)
+@sig
+    ensures kw_post(expr, kw_str_fn("name"@), opt_sv(r)),
+@*/
+
+/*@ extract src/fixtures/decorators.rs extract_fixture_scope
+@tags C03
+@ret r
+@rename filter vp_filter
+@rename find_map vp_find_map
+@closure 1 |kw: &&Keyword| -> (b: bool) ensures b == kw_is(**kw, "scope"@)
+@closure 2 |a: &Identifier| -> (b: bool) ensures b == (idv(a) == "scope"@)
+@closure 3 |kw: &Keyword| -> (o: Option<FixtureScope>) ensures o == scope_of_value(kw.value)
+@sig
+    ensures kw_post(expr, kw_scope_fn(), r),
+@*/
+
+/*@ extract src/fixtures/decorators.rs extract_usefixtures_names
+@tags C03
+@ret r
+@rename filter_map vp_filter_map
+@closure 1 |arg: &Expr| -> (o: Option<(String, TextRange)>) ensures opt_map(o, pair_view_fn()) == str_const_r(*arg)
+@sig
+    ensures usefix_post(expr, r@),
+@*/
+
+/*@ extract src/fixtures/decorators.rs extract_usefixtures_from_expr
+@tags C03 C12
+@ret r
+@rename flat_map vp_flat_map
+@sig
+    ensures ufe_post(expr, r@),
+    decreases expr,
 @*/
 } // mod decorators
 
